@@ -58,6 +58,11 @@ func (c *fctx) lvalSet(e ast.Expr, val string) {
 		}
 		c.lvalSet(baseExpr, term)
 	case *ast.IndexExpr:
+		if _, isMap := c.info.Types[x.X].Type.Underlying().(*types.Map); isMap {
+			t := c.bindM("", fmt.Sprintf("Go.mapSet %s %s %s", c.expr(x.X), c.expr(x.Index), val))
+			c.lvalSet(x.X, t)
+			return
+		}
 		c.requireOwned(x.X)
 		base := c.expr(x.X)
 		var t string
@@ -85,7 +90,10 @@ func (c *fctx) requireOwned(e ast.Expr) {
 		}
 		return
 	}
-	// a field path of a struct value held by value: the struct owns its slices only if the function created them; refuse
+	// a field path of a struct value held by value: fresh memory only if this function made it
+	if c.fieldMadeHere(e) {
+		return
+	}
 	c.fail(e, "write through a slice reached by a field path")
 }
 
@@ -173,9 +181,13 @@ func (c *fctx) assignCall(s *ast.AssignStmt, call *ast.CallExpr, catchErr bool) 
 	}
 	if co.hasErr {
 		if catchErr {
-			c.lvalSet(s.Lhs[len(s.Lhs)-1], res[len(res)-1])
+			if c.t.errEnum {
+				c.lvalSet(s.Lhs[len(s.Lhs)-1], "(Go.Err.ofBool "+res[len(res)-1]+")")
+			} else {
+				c.lvalSet(s.Lhs[len(s.Lhs)-1], res[len(res)-1])
+			}
 		} else {
-			c.lvalSet(s.Lhs[len(s.Lhs)-1], "false")
+			c.lvalSet(s.Lhs[len(s.Lhs)-1], c.errNone())
 		}
 	}
 }
@@ -275,9 +287,12 @@ func (c *fctx) rhs(e ast.Expr, target types.Type) string {
 	if isErrorType(target) {
 		if call, ok := e.(*ast.CallExpr); ok && c.errorCtor(call) {
 			if c.isNonNilError(call) {
-				return "true"
+				return c.errOther()
 			}
 			// Wrap(err, …): non-nil iff err is
+			if c.t.errEnum {
+				return "(if " + c.expr(call.Args[0]) + " = Go.Err.none then Go.Err.none else Go.Err.other)"
+			}
 			return c.expr(call.Args[0])
 		}
 	}
@@ -287,9 +302,12 @@ func (c *fctx) rhs(e ast.Expr, target types.Type) string {
 func (c *fctx) assign(s *ast.AssignStmt) {
 	switch s.Tok {
 	case token.DEFINE, token.ASSIGN:
+		if c.specialAssign(s) {
+			return
+		}
 		if len(s.Rhs) == 1 && len(s.Lhs) >= 1 {
 			if call, ok := s.Rhs[0].(*ast.CallExpr); ok {
-				if tv := c.info.Types[call.Fun]; !tv.IsType() && !c.isBuiltinOrBinary(call) && !(isErrorType(c.info.Types[s.Lhs[0]].Type) && c.errorCtor(call)) {
+				if tv := c.info.Types[call.Fun]; !tv.IsType() && !c.isBuiltinOrBinary(call) && !c.isSpecialCall(call) && !(isErrorType(c.info.Types[s.Lhs[0]].Type) && c.errorCtor(call)) {
 					c.assignCall(s, call, true)
 					return
 				}
@@ -404,6 +422,9 @@ func (c *fctx) window(dst ast.Expr) (base ast.Expr, lo, hi string) {
 }
 
 func (c *fctx) callStmt(call *ast.CallExpr) {
+	if c.specialCallStmt(call) {
+		return
+	}
 	if w := c.writerCall(call); w != "" {
 		base, lo, hi := c.window(call.Args[0])
 		c.requireOwned(base)
@@ -433,6 +454,14 @@ func (c *fctx) callStmt(call *ast.CallExpr) {
 	c.useCall(call, co, true) // an ignored error result does not abort
 }
 
+func (c *fctx) okRet(results []string) string {
+	if len(c.loops) > 0 && c.loops[len(c.loops)-1].valueRet {
+		r := c.okReturn(results)
+		return "Res.ok (Sum.inr " + strings.TrimPrefix(r, "Res.ok ") + ")"
+	}
+	return c.okReturn(results)
+}
+
 func (c *fctx) ret(s *ast.ReturnStmt) string {
 	fi := c.fi
 	nwant := len(fi.results)
@@ -443,19 +472,22 @@ func (c *fctx) ret(s *ast.ReturnStmt) string {
 		c.fail(s, "naked return")
 	}
 	inLoop := len(c.loops) > 0
+	if inLoop && !c.loops[len(c.loops)-1].valueRet {
+		// only error returns were expected in this loop (see hasValueReturn)
+		if !(fi.hasErr && len(s.Results) > 0 && c.isNonNilError(s.Results[len(s.Results)-1])) {
+			c.fail(s, "return of a value inside a loop that was classified as error-only")
+		}
+	}
 	// return f(..)
 	if len(s.Results) == 1 && nwant > 1 {
 		call, ok := s.Results[0].(*ast.CallExpr)
 		if !ok {
 			c.fail(s, "return count")
 		}
-		if inLoop {
-			c.fail(s, "return of a call inside a loop")
-		}
 		co := c.callTerm(call)
 		res := c.useCall(call, co, false)
 		pre := c.flush()
-		return pre + c.okReturn(res)
+		return pre + c.okRet(res)
 	}
 	var errExpr ast.Expr
 	vals := s.Results
@@ -476,9 +508,6 @@ func (c *fctx) ret(s *ast.ReturnStmt) string {
 	if errExpr != nil && !isNilIdent(errExpr) {
 		// return x, f(..)  with a single error-valued call, or an error variable of unknown state
 		if call, ok := errExpr.(*ast.CallExpr); ok && !c.errorCtor(call) {
-			if inLoop {
-				c.fail(s, "return of a call inside a loop")
-			}
 			co := c.callTerm(call)
 			if co.nres != 0 || !co.hasErr {
 				c.fail(s, "error expression")
@@ -488,27 +517,20 @@ func (c *fctx) ret(s *ast.ReturnStmt) string {
 			for i, e := range vals {
 				rs = append(rs, c.rhs(e, fi.results[i]))
 			}
-			return c.flush() + c.okReturn(rs)
+			return c.flush() + c.okRet(rs)
 		}
 		ev := c.rhs(errExpr, types.Universe.Lookup("error").Type())
-		if inLoop {
-			// error ⇒ abort; otherwise a value return out of a loop: not translated
-			c.fail(s, "return with an error of unknown state inside a loop")
-		}
 		var rs []string
 		for i, e := range vals {
 			rs = append(rs, c.rhs(e, fi.results[i]))
 		}
-		return c.flush() + "if " + ev + " = true then Res.err else " + c.okReturn(rs)
-	}
-	if inLoop {
-		c.fail(s, "return of a value inside a loop")
+		return c.flush() + "if " + c.errIsNonNil(ev) + " then Res.err else " + c.okRet(rs)
 	}
 	var rs []string
 	for i, e := range vals {
 		rs = append(rs, c.rhs(e, fi.results[i]))
 	}
-	return c.flush() + c.okReturn(rs)
+	return c.flush() + c.okRet(rs)
 }
 
 // evaluate the panicking sub-expressions of e (value discarded)
